@@ -75,6 +75,8 @@ def lit_hint(l):
     """what rdflib itself makes of a literal (the part of decode_rdf_representation that is not prov's)"""
     value = l.value if l.value is not None else l
     h = {"term": term(l), "pv": str(value)}
+    if l.datatype == XSD["double"] and isinstance(value, float) and value == value and value not in (float("inf"), float("-inf")):
+        h["flt"] = proto.enc_float(value)
     if l.datatype == XSD["dateTime"]:
         try:
             h["pdt"] = proto.enc_dt(dateutil.parser.parse(l))
